@@ -151,6 +151,9 @@ pub enum Step {
     /// arbitrary proving request (C12)
     Prove { node: usize, entry: u8, secret: Fr, index: u64, limit: Fr, id: Fr, ext: Fr, signal: Vec<u8>,
             path_len: i64, dir_tweak: i64, truncate: i64, reader: ReadPlan, writer: WritePlan },
+    /// proving request on a separate instance whose tree depth differs from the circuit's (C12: a configuration the
+    /// circuit cannot satisfy - the path has the wrong length); the leaf is registered there first
+    ProveAlt { depth: usize, secret: Fr, index: u64, limit: Fr, id: Fr, ext: Fr, signal: Vec<u8> },
 }
 
 #[derive(Clone, Debug, PartialEq)]
@@ -192,6 +195,7 @@ impl Step {
             Step::Recover { .. } => "recover",
             Step::RecoverSynth { .. } => "recover_synth",
             Step::Prove { .. } => "prove",
+            Step::ProveAlt { .. } => "prove_alt",
         }
     }
     pub fn to_json(&self) -> Value {
@@ -211,6 +215,9 @@ impl Step {
                 "t":"prove","node":*node as u64,"entry":*entry,"secret":fr_to_json(secret),"index":index.to_string(),"limit":fr_to_json(limit),
                 "id":fr_to_json(id),"ext":fr_to_json(ext),"signal":hex(signal),"path_len":*path_len,"dir_tweak":*dir_tweak,"truncate":*truncate,
                 "reader":reader.to_json(),"writer":writer.to_json()}),
+            Step::ProveAlt { depth, secret, index, limit, id, ext, signal } => json!({
+                "t":"prove_alt","depth":*depth as u64,"secret":fr_to_json(secret),"index":index.to_string(),"limit":fr_to_json(limit),
+                "id":fr_to_json(id),"ext":fr_to_json(ext),"signal":hex(signal)}),
         }
     }
     pub fn from_json(v: &Value) -> Option<Step> {
@@ -240,6 +247,12 @@ impl Step {
                 signal: unhex(v["signal"].as_str().unwrap_or("")),
                 path_len: v["path_len"].as_i64().unwrap_or(-1), dir_tweak: v["dir_tweak"].as_i64().unwrap_or(-1),
                 truncate: v["truncate"].as_i64().unwrap_or(-1), reader: rp("reader"), writer: wp("writer"),
+            },
+            "prove_alt" => Step::ProveAlt {
+                depth: u("depth"), secret: fr_from_json(&v["secret"]),
+                index: v["index"].as_str().and_then(|s| s.parse().ok()).unwrap_or(0),
+                limit: fr_from_json(&v["limit"]), id: fr_from_json(&v["id"]), ext: fr_from_json(&v["ext"]),
+                signal: unhex(v["signal"].as_str().unwrap_or("")),
             },
             _ => return None,
         })
@@ -1030,9 +1043,53 @@ pub fn run_trace(trace: &Trace, ctx: &mut Ctx) -> RunOutcome {
                     }
                 }
             }
+            Step::ProveAlt { depth, secret, index, limit, id, ext, signal } => {
+                ctx.counters.inc("prove_requests_other_depth");
+                match guarded(|| prove_alt(*depth, secret, *index, limit, id, ext, signal)) {
+                    Err(p) => {
+                        viol!("C12", si, step, "prove_panic", format!("instance of depth {depth}: {p}"));
+                    }
+                    Ok(Err(e)) => {
+                        return RunOutcome { violation: None, harness_error: Some(format!("prove_alt setup: {e}")) };
+                    }
+                    Ok(Ok(None)) => {
+                        ctx.counters.inc("prove_rejected");
+                        ctx.log.add(&[0xa1, 0]);
+                    }
+                    Ok(Ok(Some((ok, d)))) => {
+                        ctx.proofs += 1;
+                        ctx.log.add(&[0xa1, 1, ok as u8]);
+                        if !ok {
+                            viol!("C12", si, step, "ok_but_unverifiable", format!("instance of depth {depth} (circuit depth {DEPTH}): proving returned Ok but verify_rln_proof = {d}"));
+                        } else if *depth != DEPTH {
+                            viol!("C12", si, step, "unsatisfiable_request_proved", format!("instance of depth {depth} (circuit depth {DEPTH}) proved and verified"));
+                        }
+                    }
+                }
+            }
         }
     }
     RunOutcome { violation: None, harness_error: None }
+}
+
+/// Ok(None): rejected; Ok(Some(verdict text)): proving returned Ok, with what verification on the same instance says
+fn prove_alt(depth: usize, secret: &Fr, index: u64, limit: &Fr, id: &Fr, ext: &Fr, signal: &[u8]) -> Result<Option<(bool, String)>, String> {
+    let mut r = RLN::new(depth, Cursor::new("{}".to_string())).map_err(|e| format!("RLN::new({depth}): {e}"))?;
+    let idx = (index % (1u64 << depth)) as usize;
+    r.set_leaf(idx, Cursor::new(fr_to_le32(&rate_commitment(secret, limit)).to_vec())).map_err(|e| format!("set_leaf: {e}"))?;
+    let request = enc_request(secret, idx as u64, limit, id, ext, signal);
+    let mut out = Vec::new();
+    if r.generate_rln_proof(Cursor::new(request), &mut out).is_err() {
+        return Ok(None);
+    }
+    let mut msg = out.clone();
+    msg.extend_from_slice(&(signal.len() as u64).to_le_bytes());
+    msg.extend_from_slice(signal);
+    Ok(Some(match r.verify_rln_proof(Cursor::new(msg)) {
+        Ok(true) => (true, "true".into()),
+        Ok(false) => (false, "false".into()),
+        Err(e) => (false, format!("Err({e})")),
+    }))
 }
 
 
